@@ -388,7 +388,8 @@ def gen_scenario(rng, U, alias, i, sign, complete=False):
     return dict(keys=U, supplied=supplied, force=rng.random() < (0.5 if complete else 0.3), auto=rng.choice([None, None, True, False]),
                 utxos=utxos, inputs=inputs, collateral=collateral, required_signers=rs, native_scripts=native,
                 attached=attached, extra_refs=extra_refs, certs=certs, withdrawals=withdrawals, voters=voters,
-                witness_override=wo, change=['k', some_hash()], sign=sign)
+                witness_override=wo, change=['k', some_hash()], sign=sign,
+                prebuild=bool(sign and rs is not None and wo is None and not collateral and not attached and rng.random() < 0.5))
 
 
 def plutus_hash(ver, body_hex):
